@@ -37,7 +37,7 @@ ANCHORS = []
 ANCHORS_INFO = ["dagrt.codegen.fortran:CodeGenerator.emit_deinit_for_last_usage_of_vars",
            "dagrt.codegen.transform:SelfDependencyEliminator.map_statement",
            "dagrt.codegen.dag_ast:create_ast_from_phase", "dagrt.codegen.python:CodeGenerator.__call__"]
-MIN_NONTRIVIAL = {"quick": 100, "thorough": 2100}
+MIN_NONTRIVIAL = {"quick": 100, "thorough": 1000}
 REQUIRED_COUNTERS = {"quick": ["digests_compared_python", "digests_compared_fortran", "digests_compared_interpreter",
                                "hashseed_processes"],
                      "thorough": ["digests_compared_python", "digests_compared_fortran",
@@ -57,7 +57,7 @@ def _last_json(stdout):
 
 
 def plan(tier, seed):
-    per = 10 if tier == "quick" else 195
+    per = 10 if tier == "quick" else 90
     hs = [0, 1, 2, 3] if tier == "quick" else [0, 1, 2, 3, 4, 5, 6, 7]
     return [{"seed": f"C15:{seed}:{k}", "count": per, "hashseeds": hs} for k in range(16)]
 
@@ -72,7 +72,8 @@ def gen_corpus(rng, n):
         if i % 2 == 0:
             corpus.append({"kind": "py", "script": prog.Gen(rng, profile="py").script()})
         else:
-            g = ftn.FGen(rng, memory_bias=True, two_types=rng.random() < 0.7, max_ops=12, neq=True)
+            g = ftn.FGen(rng, memory_bias=True, two_types=rng.random() < 0.7, max_ops=12, neq=True,
+                         struct_type=rng.random() < 0.2)
             corpus.append({"kind": "ftn", "script": g.script()})
     return corpus
 
